@@ -112,6 +112,16 @@ func init() {
 			}
 			return nil
 		},
+		"verifKnownAt": func(fr *frame, a []value) value {
+			// verifKnownAt(id, site): a panic on this path whose innermost repository function
+			// name contains site is the listed known finding <id> (identification by call site).
+			w := fr.i.w
+			if w.knownSites == nil {
+				w.knownSites = map[string]string{}
+			}
+			w.knownSites[a[1].(string)] = a[0].(string)
+			return nil
+		},
 		"verifObserve": func(fr *frame, a []value) value {
 			w := fr.i.w
 			if w.eng.Opt.Concrete != nil {
